@@ -25,18 +25,26 @@ MANIFEST = {
             "the area bound |area| <= d*raster*(max_grad+1e-8) behind `shortest_conceivable`), hence no two-ramp gradient within "
             "99% of the limits (nor within the code's +1e-8 limits from the lower search bound upwards) has fewer raster steps; "
             "the algorithm BEFORE repair 7df2246 (model function eta_old) is refuted by a vm_compute witness (18 steps returned, "
-            "8+8 exists). Safety factors (0.99), tolerances (1e-8), eps and the shape of every transcribed expression are re-read "
+            "8+8 exists). The raster-sampled form (convert_to_arbitrary=True, model eta_arb: points_to_waveform + "
+            "make_arbitrary_grad + first/last assignment) has first = grad_start, last = grad_end, one sample per raster step at "
+            "the raster centres equal to the corner list evaluated there, and the sum of its samples times the raster EQUALS the "
+            "requested area. TOTAL CORRECTNESS (eta_total): for in-domain inputs, systems whose limits exceed ~1e-6 and fuel "
+            "covering log2 of the computable bound d_feasible, every duration >= d_feasible has a solution, the doubling loop and "
+            "the binary search end on a solution and the construction passes every check: a gradient IS returned. "
+            "Safety factors (0.99), tolerances (1e-8), eps and the shape of every transcribed expression are re-read "
             "from the source on every run. On the implementation every generated case (random systems, rasters 2.5/4/5/6.4/10/"
             "12.5/20 us, both signs, limit / equal / opposite / zero ends, areas from 0 to many times the one-ramp area, dead-zone "
             "neighbourhoods, a directed family of inputs on which doubling+bisection over the two-ramp feasibility predicate is "
             "fooled, one-raster-step ramps) is checked with exact Fractions: end points, raster, area to 1e-8, limits, and a "
-            "brute-force search of ALL shorter two-ramp gradients; the extracted model is compared on the returned duration, "
+            "brute-force search of ALL shorter two-ramp gradients; the convert_to_arbitrary=True form of the same call is checked "
+            "too (first/last, samples = corner list at the raster centres, area, limits, duration); the extracted model is compared on the returned duration, "
             "validity class, selection cost, and on `_find_solution` (captured closure) for the probed and random durations.",
     'note': "Trusted: Coq kernel; translator patterns for make_extended_trapezoid_area.py / make_extended_trapezoid.py; extraction "
             "(ExtrOcamlBasic) + driver; binary64/NumPy arithmetic is outside the model (decisions that differ only because a value "
             "sits within 1e-9 of a threshold or a rounding tie are counted as benign divergences when the implementation's own "
-            "output satisfies the oracle and the divergence is explained by a per-duration difference). Termination of the "
-            "doubling loop is not proved (explicit fuel; OutOfFuel is excluded by the form `eta = OK o -> ...` of the theorems). "
+            "output satisfies the oracle and the divergence is explained by a per-duration difference). Termination is "
+            "proved for the model with explicit fuel >= log2(d_feasible) (eta_total); totality of the arbitrary form is not proved "
+            "separately (its theorems have the form `eta_arb = OK o -> ...`). "
             "The minimality theorem needs |grad_start|, |grad_end| <= 0.99 max_grad + 1e-8 (the property's domain) for the "
             "area bound of the rescan.",
     'technique': 'Rocq/Coq proof over a Gallina model (field/lra for the area equation and the area bound, induction over the '
@@ -62,7 +70,8 @@ TRUSTED = ['binary64 arithmetic of NumPy/Python (products, ceil, round, comparis
 ASSUMPTIONS = ['generated cases keep every ceil() argument of the ramp-time computation at least 1e-9 away from an integer '
                '(or exactly 0), so the rastered ramp counts agree between binary64 and exact arithmetic',
                'theorem eta_minimal assumes |grad_start|, |grad_end| <= 0.99 max_grad + 1e-8 (the domain of the property) and '
-               'max_slew > 0; termination of the doubling loop is not proved (fuel)']
+               'max_slew > 0; eta_total assumes in_domain, sys_ok (the 1e-8 tolerances fit between 99% and 100% of the limits) '
+               'and fuel >= log2 of d_feasible']
 
 FUEL_D, FUEL_B = 12, 200      # doubling fuel 12: up to 4096 x the ramp-to-zero duration (the generator stays far below)
 MAX_FIND_D = 6000            # longest duration handed to the model's find_solution
